@@ -20,7 +20,9 @@ BOUNDS = ("inductive step: ONE add_file from an ARBITRARY pre-state -- 68 symbol
           "(all 72 + directory full; seeded in the granule obligations), everything after the partition point symbolic, "
           "each partition decided by the solver; files needing 1-4 granules incl. exact-multiple lengths; default and permuted fill orders.  Plus "
           "native histories (enumeration, not a solver verdict): fill an empty disk with 68 one-granule files / few large "
-          "files, one more must fail and leave the host file untouched (through VirtualFile on the in-memory host FS)")
+          "files / an EXACTLY full disk with BASIC and ASCII files of 2299, 2300, 2303, 4603 bytes / NUL-padded names, one more "
+          "must fail and leave the host file untouched (through VirtualFile on the in-memory host FS); after every append an "
+          "independent reader counts one directory entry per stored file and exactly the granules their streams need")
 OUTSIDE = ("one step from an arbitrary state covers histories of any length provided the pre-state invariant (every used "
            "granule lies on a chain) is what histories produce: that is exactly the fsck invariant C08 establishes")
 ASSUMPTIONS = c06.ASSUMPTIONS
